@@ -17,7 +17,7 @@
 
   Proved: the third conjunct in full (`validated_full`, `validated_table`); the second in full
   (`idempotent`, every converter of the regenerated table); the first for every occurrence outside
-  the four (converter, datatype) cells of `knownCells` (`binding_compatible`), each with a proved
+  the two (converter, datatype) cells of `knownCells` (`binding_compatible`), each with a proved
   counter-example (`finding_*`).
 
   `Lex` is the set of *canonical* lexical forms of a datatype (no insignificant outer white space
@@ -540,10 +540,6 @@ def dtOf (i : Nat) : DT :=
     datatype.  Each is a defect of the unchanged tree recorded in known-findings/C15.txt and shown by a
     proved counter-example below; any other incompatible cell breaks `cells_ok`. -/
 def knownCells : List (Nat × DT) := [
-  -- KF-C15-1  draw:name on 21 shape/page/layer elements is `string` in the schema but bound to cnv_NCName (make_NCName mangles ' ' and ':')
-  (AttrConv.c_cnv_NCName, [.data .string none]),
-  -- KF-C15-5  attributes typed `length | percent` bound to cnv_length
-  (AttrConv.c_cnv_length, [.data .string (some AttrSchema.sp_percent), .data .string (some AttrSchema.sp_length)]),
   -- KF-C15-6  namespacedToken = xsd:QName (prefix optional, any NCName characters); code wants ASCII prefix:local
   (AttrConv.c_cnv_namespacedToken, [.data .QName none]),
   -- KF-C15-7  svg:viewBox = list of four xsd:integer (sign '+', any XML white space); code wants -?digits and blanks
@@ -628,7 +624,7 @@ theorem kind_identity_of_lt {i : Nat} (h : i < AttrConv.nIdentity) : isIdentity 
 /-- **C15 (binding_compatible)**: for every attribute occurrence `(element, attribute, datatype)` of the
     shipped schema, the converter that `AttrConverters.convert` selects for `(attribute, element)` accepts
     every lexical value of the datatype and returns it unchanged — or the (converter, datatype) cell is one
-    of the four recorded findings. -/
+    of the two recorded findings. -/
 theorem binding_compatible :
     ∀ t ∈ AttrTable.attrTable, ∀ o ∈ t.2.2,
       Compatible (kindOf (convertIdx AttrTable.bindings t.1 o.1)) (dtOf o.2) ∨
@@ -658,14 +654,6 @@ example : ∃ t ∈ AttrTable.attrTable, ∃ o ∈ t.2.2,
 
 /-! ### Proved counter-examples for the recorded cells (each witness is a schema-valid value) -/
 
-/-- KF-C15-1: `draw:name="My Shape 1"` (schema type `string`) is stored as `My_20_Shape_20_1` -/
-theorem finding_name_mangled :
-    Lex [.data .string none] (lit "My Shape 1") = true ∧
-    cnv AttrConv.c_cnv_NCName (lit "My Shape 1") = .ok (lit "My_20_Shape_20_1") := by decide +kernel
-/-- KF-C15-5: a percentage on an attribute typed `length | percent` bound to `cnv_length` -/
-theorem finding_length_or_percent :
-    Lex [.data .string (some AttrSchema.sp_percent), .data .string (some AttrSchema.sp_length)] (lit "50%") = true ∧
-    cnv AttrConv.c_cnv_length (lit "50%") = .error .valueError := by decide +kernel
 /-- KF-C15-6: an unprefixed QName -/
 theorem finding_qname_unprefixed :
     cnv AttrConv.c_cnv_namespacedToken (lit "bar") = .error .valueError := by decide +kernel
